@@ -49,6 +49,19 @@ pub struct Snapshot {
     pub handler_address: usize,
     /// variables of every memory block, in index order: (name, value)
     pub vars: Option<Vec<Vec<(String, Variant)>>>,
+    /// for every pending GOSUB (same order as `go_sub_address_stack`): the heights
+    /// of the register stack and of the value stack recorded by the `GoSub`
+    pub go_sub_marks: Vec<(usize, usize)>,
+    /// for every return address (same order as `return_address_stack`): the heights
+    /// of the register stack, of the GOSUB address stack, of the value stack and of
+    /// the variable path stack recorded by the `PushRet`
+    pub return_marks: Vec<(usize, usize, usize, usize)>,
+    /// the heights of the register stack and of the value stack recorded when the
+    /// most recent error was handed to an ON ERROR GOTO handler: the raw
+    /// `last_error_marks`, which RESUME reads and does not clear ((0, 0) before the
+    /// first such error; meaningful while `last_error_address` is set); `None` only
+    /// in a snapshot that was not filled by the interpreter
+    pub error_marks: Option<(usize, usize)>,
 }
 
 pub type Observer = Box<dyn FnMut(&Snapshot)>;
